@@ -109,6 +109,9 @@ def configs(n, C, lay):
     for tau in (None, 1.0, float("inf")):
         for seed in (0, 3):
             out.append(("KDPseudoLabelWrapper", dict(pseudo_labels=soft, topk=min(2, C), tau=tau, seed=seed), True))
+            if seed == 0:
+                out.append(("KDPseudoLabelWrapper", dict(pseudo_labels=soft, topk=C, tau=tau, seed=seed), True))
+                out.append(("KDPseudoLabelWrapper", dict(pseudo_labels=soft, topk=1, tau=tau, seed=seed), True))
     for mode, mk in (("random", None), ("randperm", None), ("gatherbug", dict(world_size=2))):
         for nc in (None, 5):
             for seed in (0, 1):
@@ -116,7 +119,7 @@ def configs(n, C, lay):
     for sp in (0.0, 0.5, 1.0):
         for seed in (0, 1):
             out.append(("SemiWrapper", dict(semi_percent=sp, seed=seed), True))
-    for sm in (0, 0.1, 0.5):
+    for sm in (0, 0.0, 0.1, 0.5, 1.0):
         out.append(("LabelSmoothingWrapper", dict(smoothing=sm), True))
     out.append(("OneHotWrapper", dict(), True))
     return out
